@@ -36,6 +36,9 @@ type Case struct {
 	Shards     int          `json:"shards"` // >0: also run through a proxy over this many shards
 	ShardOf    []int        `json:"shard_of,omitempty"`
 	Reqs       []Req        `json:"reqs"`
+	// AggLimits: stores run with the production default aggregation limits (never reached
+	// by these corpora) instead of "no limits"
+	AggLimits bool `json:"agg_limits,omitempty"`
 }
 
 func genDoc(t *rapid.T, i int, seen map[model.ID]bool, spread uint64) model.Doc {
@@ -70,6 +73,7 @@ func genCase(t *rapid.T) Case {
 	for i := 0; i < n; i++ {
 		c.Corpus = append(c.Corpus, genDoc(t, i, seen, spread))
 	}
+	c.AggLimits = rapid.IntRange(0, 2).Draw(t, "agglimits") > 0
 	c.K = rapid.IntRange(1, 5).Draw(t, "k")
 	c.LastActive = rapid.Bool().Draw(t, "lastactive")
 	for i := 0; i < n; i++ {
@@ -148,7 +152,7 @@ func checkQPR(what string, qpr *seq.QPR, corpus model.Corpus, rq *Req, text stri
 func runCase(c Case) (evid.Result, error) {
 	res := evid.Result{}
 	dir := evid.ScratchDir("c06")
-	st, err := harness.OpenStore(dir, harness.StoreOpts{})
+	st, err := harness.OpenStore(dir, harness.StoreOpts{AggLimits: c.AggLimits})
 	if err != nil {
 		return res, err
 	}
@@ -179,7 +183,7 @@ func runCase(c Case) (evid.Result, error) {
 	}
 	var cl *harness.Cluster
 	if c.Shards > 0 {
-		cl, err = harness.NewCluster(evid.ScratchDir("c06c"), c.Shards, 1, harness.StoreOpts{}, nil, true)
+		cl, err = harness.NewCluster(evid.ScratchDir("c06c"), c.Shards, 1, harness.StoreOpts{AggLimits: c.AggLimits}, nil, true)
 		if err != nil {
 			return res, err
 		}
@@ -205,6 +209,9 @@ func runCase(c Case) (evid.Result, error) {
 			}
 		}
 		res.Labels = append(res.Labels, "through-proxy")
+	}
+	if c.AggLimits {
+		res.Labels = append(res.Labels, "production-agg-limits")
 	}
 	for i := range c.Reqs {
 		rq := &c.Reqs[i]
